@@ -27,6 +27,7 @@ fn members() -> Vec<(&'static str, Class)> {
         ("\"a*\"", Class::Str),
         ("\"*c\"", Class::Str),
         ("\"x\"", Class::Str),
+        ("\"\"", Class::Str),
         ("\"ia\"", Class::Str),
         ("\"i*B*\"", Class::Str),
         ("\"?a\"", Class::Str),
@@ -66,6 +67,11 @@ fn docs() -> Vec<MObj> {
         out.push(MObj::new().with("f", s(&t)));
     }
     out.push(MObj::new().with("f", s("AB")));
+    // values with multi-byte characters: offsets inside the value are bytes, not characters
+    for t in ["aé", "éa", "éc", "aéc", "xé", "é", "ab€", "€bc", "aÉb"] {
+        out.push(MObj::new().with("f", s(t)));
+    }
+    out.push(MObj::new().with("f", s("")));
     for v in [
         MVal::Int(1),
         MVal::Int(2),
